@@ -276,9 +276,10 @@ def tt_cp_apr_mu(  # noqa: PLR0912,PLR0913,PLR0915
         for n in range(N):
             # Make adjustments to entries of M[n] that are violating complementary
             # slackness conditions.
-            # TODO both these zeros were 1 in matlab
+            # (iteration is 0-based here; the threshold on Phi is a value, not an index:
+            # a zero entry is inadmissible only where Phi exceeds one)
             if iteration > 0:
-                V = (Phi[n] > 0) & (M.factor_matrices[n] < kappatol)
+                V = (Phi[n] > 1) & (M.factor_matrices[n] < kappatol)
                 if np.any(V):
                     nViolations[iteration] += 1
                     M.factor_matrices[n][V > 0] += kappa
